@@ -3,6 +3,7 @@ NOTES = ("Deterministic simulation with fault injection (hwsim). Every check reb
          "in forked worker processes, gates violations on fresh-process replay, minimises them and matches /verif/known-findings.txt. "
          "See DESIGN.md.")
 ENGINE_TEXT = {
+    "topo": "replica world of topologies under seeded operation histories; canonical dump through the public API, independent WF checker, per-op oracles (ASan+UBSan, assertion capture, step budget)",
     "bitmap": "seeded op histories on a pool of bitmaps, refined against a set model (ASan+UBSan)",
 }
 TRUST = "trusted: harness reference model, clang sanitizers; seeded search, not proof; allocator failure not injected"
@@ -14,6 +15,17 @@ CLAIMED = {
                 text="exploration: the three printers/parsers applied to pool members whose layout comes from seeded histories: snprintf for every buffer length class 0..needed+1 with guard bytes, asprintf agreement, print->parse into a differently shaped bitmap, equal sets print identically. The arbitrary-string clause is a pure function of its input; it is sampled under ASan and counted separately (pure_input_evaluations), the level does not rest on it.",
                 note=TRUST + "; list-format strings naming an index >= 2^20 (or negative numbers, which the parser turns into huge indexes) are skipped: hwloc would allocate up to 512 MB per op"),
 }
+CLAIMED.update({
+    "C01": dict(machine="topo", design_ref="4/C01", technique="seeded configure/load histories + independent well-formedness invariant on every simulated state",
+                text="exploration: seeded configure->load histories (per-type filter assignments including refused ones, flag words including illegal ones, refused calls after load) over generated synthetic strings and the corpus XML (file and buffer, both XML back-ends as process classes); every loaded topology is judged by an independent checker holding exactly the clauses of the statement plus hwloc_topology_check() under an assertion trap. The same checker runs after every op of every other topology-level check. Sampling of the source x configuration product is input generation and is reported as such.",
+                note=TRUST + "; Linux/x86 snapshot sources are exercised by the C18 machine; the live machine is not loaded (not controllable)"),
+    "C02": dict(machine="topo", design_ref="4/C02", technique="modifying-call histories with invalid-argument faults, invariants checked after every step",
+                text="exploration: seeded histories of 3-40 public modifying calls with valid and invalid arguments (restrict with all flag words, Misc and Group insertion incl. conflicting/empty/dont_merge/equal-to-existing, allow, info edits, subtype, refresh, userdata); after every step the full canonical dump is taken, the independent WF checker and hwloc_topology_check() run, calls documented to fail without effect must leave the dump byte-identical, gp_index never changes type, userdata tokens of survivors are untouched, other replicas do not move.",
+                note=TRUST),
+    "C08": dict(machine="topo", design_ref="4/C08", technique="restrict histories judged by a relational before/after oracle keyed by gp_index; atomic refusal",
+                text="exploration: histories with restrict weighted up (cpuset and nodeset, 32 flag words + unknown bit, sub/super/disjoint/infinite/empty sets) on topologies with Misc/I-O objects and CPU-less/memory-less nodes; each call is judged relationally on the dumps before/after: root/complete/allowed sets, exact PU/NUMA survival, every survivor = old object with old sets minus dropped resources, disappearance only when nothing is left below or by level merging with a same-sets twin, Misc/I-O dropped or re-attached to the closest surviving ancestor (or the twin of a merged one), EINVAL => dump unchanged.",
+                note=TRUST),
+})
 PLANNED = "check not built yet at this commit (planned, DESIGN.md section 4)"
 NOT_APPLICABLE = {
     "C07": "pure function of the description string, export flags and filters: no I/O, schedule, fault or history for a simulator to control (DESIGN.md section 2)",
